@@ -843,4 +843,32 @@ theorem argmaxBool_spec (q : α → Bool) (l : List α) (h : ∃ v ∈ l, q v = 
 
 end Median
 
+section MedianSpec
+variable {α : Type} [Field α] [LinearOrder α]
+
+theorem length_cumVals {σ : Type} (t : Tab σ α) : (cumVals t).length = t.length := by
+  rw [cumVals_eq, length_prefixSums]; simp [vals]
+
+theorem getElem_cumVals {σ : Type} (t : Tab σ α) (j : Nat) (hj : j < (cumVals t).length) :
+    (cumVals t)[j] = ((vals t).take (j + 1)).sum := by
+  have hj' : j < (vals t).length := by
+    rw [length_cumVals] at hj; simpa [vals] using hj
+  have h := getElem?_prefixSums (0 : α) (vals t) j hj'
+  rw [← cumVals_eq, zero_add] at h
+  exact (List.getElem_eq_iff hj).mpr h
+
+/-- The index `argmaxBool q (cumVals t)` is the first position whose cumulative value
+satisfies `q`. -/
+theorem argmax_cumVals (q : α → Bool) (t : Tab α α) (h : ∃ v ∈ cumVals t, q v = true) :
+    argmaxBool q (cumVals t) < t.length
+      ∧ q (((vals t).take (argmaxBool q (cumVals t) + 1)).sum) = true
+      ∧ ∀ i, i < argmaxBool q (cumVals t) → q (((vals t).take (i + 1)).sum) = false := by
+  obtain ⟨hj, h1, h2⟩ := argmaxBool_spec q (cumVals t) h
+  refine ⟨by rw [← length_cumVals]; exact hj, ?_, ?_⟩
+  · rw [← getElem_cumVals t _ hj]; exact h1
+  · intro i hi
+    rw [← getElem_cumVals t i (by omega)]; exact h2 i hi
+
+end MedianSpec
+
 end Dit.Lemmas.Constructors
